@@ -190,6 +190,21 @@ static void set_body(Rng &r, const GenFeatures &f, MsgSpec &m, bool allow_close)
     if (k < 3) { m.framing = FR_NONE; return; }
     m.body = rand_body(r, f, maxb);
     m.payload = m.body;
+    if (f.content_coding && r.chance(1, 3)) {
+        // a content coding on either side (request bodies are decoded when the configuration enables it); no ground truth is
+        // derived from these messages: only scenarios without expectations switch the feature on
+        HeaderSpec ce; ce.name = r.chance(1, 4) ? "content-encoding" : "Content-Encoding";
+        switch (r.below(6)) {
+            case 0: m.body = z_encode(m.payload, 31, 6, r.chance(1, 3) ? (int) r.below(16) : 0); ce.value = r.coin() ? "gzip" : "x-gzip"; break;
+            case 1: m.body = z_encode(m.payload, -15, 6, 0); ce.value = "deflate"; break;
+            case 2: m.body = z_encode(m.payload, 15, 6, 0); ce.value = "deflate"; break;
+            case 3: m.body = lzma_alone_encode(m.payload, 1u << 16); ce.value = "lzma"; break;
+            case 4: m.body = z_encode(z_encode(m.payload, 31, 6, 0), -15, 6, 0); ce.value = "deflate, gzip"; break;
+            default: ce.value = r.coin() ? "gzip" : "deflate"; break;   // announced, not applied
+        }
+        if (r.chance(1, 6) && m.body.size() > 4) m.body.resize(m.body.size() - (size_t) r.range(1, std::min<int64_t>(12, (int64_t) m.body.size() - 1)));   // coded stream cut short
+        m.headers.push_back(ce);
+    }
     if (allow_close && f.close_delim && k == 3) { m.framing = FR_CLOSE; return; }
     if (f.chunked && k < 7 && m.version == "HTTP/1.1") {
         m.framing = FR_CHUNKED;
@@ -540,7 +555,32 @@ void mutate_stream(Rng &rng, Bytes &s, int n_mut) {
     for (int i = 0; i < n_mut; i++) {
         if (s.empty()) { s.push_back('\n'); continue; }
         size_t p = (size_t) rng.below(s.size());
-        switch (rng.below(8)) {
+        switch (rng.below(12)) {
+            case 8: {   // a line end replaced by one of the mixes the parsers treat specially
+                static const char *EOLS[] = {"\n", "\r", "\n\r", "\r\r\n", "\n\r\r\n\r\n", "\r\n\r", "\r\r", "\n\n", "\r\n\r\n", "\n\r\n", "\r\n \r\n", "\r\n\t"};
+                size_t e = s.find("\r\n", p); if (e != std::string::npos) s.replace(e, 2, EOLS[rng.below(sizeof EOLS / sizeof *EOLS)]);
+                break;
+            }
+            case 9: {   // a header line with meaning inserted after some line end
+                static const char *LINES[] = {"Content-Type: multipart/byteranges; boundary=x\r\n", "Content-Length: 5\r\n", "Content-Length: 0\r\n", "Transfer-Encoding: chunked\r\n", "Content-Encoding: gzip\r\n",
+                    "Content-Encoding: deflate, lzma\r\n", "Content-Encoding: lzma\r\n", "Connection: close\r\n", "Expect: 100-continue\r\n", "Upgrade: h2c\r\n", "Content-Type: multipart/form-data; boundary=X\r\n",
+                    "Content-Type: application/x-www-form-urlencoded\r\n", "Authorization: Bearer abc\r\n", "Authorization: Basic !!!\r\n", "Authorization: Basic\r\n", "Authorization: Digest username=\r\n", "Authorization: Digest username=\"a\\\"b\r\n",
+                    "Authorization: NTLM abc\r\n", "Host: a:b\r\n", "Host: [::1]:80\r\n", "Host: \r\n", "Cookie: =; ;a\r\n", " folded\r\n", "\tfolded: x\r\n", "Content-Length: 18446744073709551616\r\n", "Content-Length: -1\r\n",
+                    "Transfer-Encoding: identity\r\n", "Content-Type: multipart/form-data\r\n", "Content-Type: multipart/form-data; boundary=\r\n", "Content-Type: multipart/form-data; boundary=\"a b\"; boundary=c\r\n"};
+                size_t e = s.find('\n', p); if (e != std::string::npos) s.insert(e + 1, LINES[rng.below(sizeof LINES / sizeof *LINES)]);
+                break;
+            }
+            case 10: {  // another status code
+                static const char *CODES[] = {"100", "101", "102", "199", "204", "304", "401", "407", "200", "206", "999", "000", "1xx", "2000"};
+                size_t e = s.find("HTTP/1.", p > 8 ? p - 8 : 0); if (e != std::string::npos && e + 12 <= s.size() && s[e + 8] == ' ' && isdigit((unsigned char) s[e + 9])) s.replace(e + 9, 3, CODES[rng.below(sizeof CODES / sizeof *CODES)]);
+                break;
+            }
+            case 11: {  // another method at the start of a line
+                static const char *METH[] = {"CONNECT", "HEAD", "PUT", "POST", "GET", "OPTIONS", "TRACE", "PRI", "get", "G\0T"};
+                size_t b = s.rfind('\n', p); b = b == std::string::npos ? 0 : b + 1; size_t sp = s.find(' ', b);
+                if (sp != std::string::npos && sp - b <= 8 && sp > b) s.replace(b, sp - b, METH[rng.below(sizeof METH / sizeof *METH)]);
+                break;
+            }
             case 0: s[p] = (char) rng.below(256); break;
             case 1: s.insert(p, 1, INS[rng.below(sizeof INS)]); break;
             case 2: s.erase(p, (size_t) rng.range(1, 4)); break;
